@@ -82,6 +82,7 @@ def execute(sc):
         main_task = asyncio.ensure_future(the_app.main_loop())
         await asyncio.sleep(0)
         seen = {}
+        nonces = set()
 
         def seg_data(n):
             fb = SEG(last) if (sc['marker'] == 'every' or n == last) else None
@@ -101,6 +102,13 @@ def execute(sc):
                 key = ('other', tuple(name))
             R['requests'][key] = R['requests'].get(key, 0) + 1
             seen[key] = seen.get(key, 0) + 1
+            # the peer is a forwarder: an Interest repeating the (name, nonce) of one it has seen is a duplicate, not a re-request
+            dup_key = (tuple(name), p['nonce'])
+            if p['nonce'] is not None and dup_key in nonces:
+                R['duplicate_nonce'] = R.get('duplicate_nonce', 0) + 1
+                asyncio.get_running_loop().call_soon(face.deliver_task, rc.make_lp(fragment=wire, nack_reason=100))
+                return
+            nonces.add(dup_key)
             if seen[key] <= sc['loss'].get(str(key), 0):
                 return                                   # lost
             fault = sc.get('fault')
